@@ -668,3 +668,185 @@ def direct_stores(f):
                 t['dest'] = np_
                 n += 1
     return n
+
+
+def _type_head(t):
+    t = t.strip()
+    while t.startswith('&'):
+        t = t[1:].lstrip()
+        if t.startswith("'"):
+            t = t.split(' ', 1)[1] if ' ' in t else t
+        if t.startswith('mut '):
+            t = t[4:]
+    return t.split('<')[0]
+
+
+def scalar_replace(f, new_structs):
+    """Scalar replacement of a local of a *new* record type (a struct of the crate that the reference tree does not
+    have: a parameter object / visitor state a refactor introduced) that never escapes: every use is the initial
+    struct literal, a field projection `x.f..`, a `&mut x` whose copies are only ever used as `(*r).f..`, or its drop.
+    The record is split into one local per field (named after the field), so that `visitor.total += v` inside a
+    spliced method body is an update of a plain local again.  Returns the number of records replaced."""
+    blocks = f['blocks']
+    argc = f.get('argc', 0)
+    locals_ = f['locals']
+    cands = {l for l, loc in enumerate(locals_) if l > argc and not loc['ty'].lstrip().startswith('&') and _type_head(loc['ty']) in new_structs}
+    if not cands:
+        return 0
+    is_place = lambda x: isinstance(x, dict) and 'l' in x and 'p' in x and isinstance(x['p'], list)
+    # alias discovery: references to a candidate, their copies and whole reborrows
+    target = {}
+    bad = set()
+
+    def def_target(rv):
+        if rv['r'] == 'ref' and is_place(rv['pl']):
+            pl = rv['pl']
+            if not pl['p'] and pl['l'] in cands:
+                return pl['l']
+            if len(pl['p']) == 1 and pl['p'][0]['k'] == 'deref' and pl['l'] in target:
+                return target[pl['l']]
+        if rv['r'] == 'use' and rv['a'].get('o') in ('copy', 'move') and not rv['a']['pl']['p'] and rv['a']['pl']['l'] in target:
+            return target[rv['a']['pl']['l']]
+        return None
+    for _ in range(6):
+        grew = False
+        for b in blocks:
+            for st in b['stmts']:
+                if st['s'] == 'assign' and not st['pl']['p'] and st['pl']['l'] not in cands and locals_[st['pl']['l']]['ty'].lstrip().startswith('&'):
+                    tg = def_target(st['rv'])
+                    if tg is not None and st['pl']['l'] not in target and st['pl']['l'] > argc:
+                        target[st['pl']['l']] = tg
+                        grew = True
+        if not grew:
+            break
+    group = lambda l: l if l in cands else target.get(l)
+
+    # classify every occurrence
+    def visit_place(pl, role, st=None):
+        g = group(pl['l'])
+        if g is None:
+            return
+        if pl['l'] in cands:
+            if pl['p'] and pl['p'][0]['k'] == 'field':
+                return
+            if not pl['p'] and role in ('init', 'refwhole', 'drop'):
+                return
+            bad.add(g)
+        else:
+            if len(pl['p']) >= 2 and pl['p'][0]['k'] == 'deref' and pl['p'][1]['k'] == 'field':
+                return
+            if not pl['p'] and role in ('aliasdef', 'aliassrc'):
+                return
+            if len(pl['p']) == 1 and pl['p'][0]['k'] == 'deref' and role == 'reborrow':
+                return
+            bad.add(g)
+
+    def walk(x, role='use'):
+        if is_place(x):
+            visit_place(x, role)
+            for p in x['p']:
+                if p.get('k') == 'index' and 'l' in p and group(p['l']) is not None:
+                    bad.add(group(p['l']))
+            return
+        if isinstance(x, dict):
+            for v in x.values():
+                walk(v, role)
+        elif isinstance(x, list):
+            for v in x:
+                walk(v, role)
+    for b in blocks:
+        for st in b['stmts']:
+            if st['s'] != 'assign':
+                walk(st)
+                continue
+            pl, rv = st['pl'], st['rv']
+            if not pl['p'] and pl['l'] in cands:
+                if rv['r'] == 'agg' and rv['kind'].get('k') == 'adt' and rv['kind'].get('path') == _type_head(locals_[pl['l']]['ty']):
+                    walk(rv.get('ops'))
+                    continue
+                bad.add(pl['l'])
+                walk(rv)
+                continue
+            if not pl['p'] and pl['l'] in target:
+                tg = def_target(rv)
+                if tg is None or tg != target[pl['l']]:
+                    bad.add(target[pl['l']])
+                    if tg is not None:
+                        bad.add(tg)
+                continue
+            visit_place(pl, 'use')
+            if rv['r'] == 'ref' and is_place(rv.get('pl')) and group(rv['pl']['l']) is not None and (not rv['pl']['p'] or (len(rv['pl']['p']) == 1 and rv['pl']['p'][0]['k'] == 'deref')):
+                bad.add(group(rv['pl']['l']))     # a reference to the whole record stored somewhere that is not an alias
+            else:
+                walk(rv)
+        t = b['term']
+        if t['t'] == 'drop' and is_place(t.get('pl')) and not t['pl']['p'] and t['pl']['l'] in cands:
+            continue
+        walk({k: v for k, v in t.items() if k not in ('to', 'targets', 'otherwise', 'unwind', 'line', 't', 'callee')})
+    # every candidate must be initialised exactly by struct literals
+    inits = {}
+    for b in blocks:
+        for st in b['stmts']:
+            if st['s'] == 'assign' and not st['pl']['p'] and st['pl']['l'] in cands:
+                inits.setdefault(st['pl']['l'], []).append(st)
+    good = [l for l in sorted(cands) if l not in bad and inits.get(l)]
+    if not good:
+        return 0
+    names = {d['v']['l']: d['name'] for d in f.get('debug', []) if is_place(d.get('v')) and not d['v']['p']}
+    done = 0
+    for L in good:
+        kinds = inits[L][0]['rv']['kind']
+        fields = kinds.get('fields') or []
+        ops0 = inits[L][0]['rv']['ops']
+        n = len(ops0)
+        if any(len(s_['rv']['ops']) != n for s_ in inits[L]):
+            continue
+        ftys = []
+        for k in range(n):
+            o = ops0[k]
+            ftys.append(o['pl']['ty'] if o.get('o') in ('copy', 'move') else o.get('c', {}).get('ty', '?'))
+        base = len(locals_)
+        for k in range(n):
+            locals_.append({'ty': ftys[k], 'adt': ''})
+            nm = str(fields[k]) if k < len(fields) else str(k)
+            f.setdefault('debug', []).append({'name': nm, 'v': {'l': base + k, 'p': [], 'ty': ftys[k]}})
+        aliases = {r for r, tg in target.items() if tg == L}
+
+        def fix(x):
+            if is_place(x):
+                if x['l'] == L and x['p'] and x['p'][0]['k'] == 'field':
+                    k = x['p'][0]['i']
+                    x['l'], x['p'] = base + k, x['p'][1:]
+                elif x['l'] in aliases and len(x['p']) >= 2 and x['p'][0]['k'] == 'deref' and x['p'][1]['k'] == 'field':
+                    k = x['p'][1]['i']
+                    x['l'], x['p'] = base + k, x['p'][2:]
+                for p in x['p']:
+                    fix(p)
+                return
+            if isinstance(x, dict):
+                for v in x.values():
+                    fix(v)
+            elif isinstance(x, list):
+                for v in x:
+                    fix(v)
+        for b in blocks:
+            out = []
+            for st in b['stmts']:
+                if st['s'] == 'assign' and not st['pl']['p'] and st['pl']['l'] == L:
+                    for k, o in enumerate(st['rv']['ops']):
+                        o2 = copy.deepcopy(o)
+                        fix(o2)
+                        out.append({'s': 'assign', 'pl': {'l': base + k, 'p': [], 'ty': ftys[k]}, 'rv': {'r': 'use', 'a': o2}, 'line': st.get('line'), 'exp': st.get('exp', False)})
+                    continue
+                if st['s'] == 'assign' and not st['pl']['p'] and st['pl']['l'] in aliases:
+                    continue
+                fix(st)
+                out.append(st)
+            b['stmts'] = out
+            t = b['term']
+            if t['t'] == 'drop' and is_place(t.get('pl')) and not t['pl']['p'] and t['pl']['l'] == L:
+                b['term'] = {'t': 'goto', 'to': t['to']}
+            else:
+                fix(t)
+        done += 1
+    return done
